@@ -203,11 +203,288 @@ fn ts_case(case: &mut Case) -> CaseResult {
     Ok(())
 }
 
+// ---------------------------------------------------------------------------------------
+// Part A: the server schema string
+
+/// `export const schema = `...`;` -> raw template text
+pub fn extract_template(js: &str) -> Result<String, String> {
+    let marker = "export const schema = `";
+    let start = js.find(marker).ok_or("no `export const schema = `")? + marker.len();
+    let cs: Vec<char> = js[start..].chars().collect();
+    let mut raw = String::new();
+    let mut i = 0;
+    loop {
+        let Some(&c) = cs.get(i) else { return Err("unterminated template literal".into()) };
+        match c {
+            '\\' => {
+                raw.push(c);
+                if let Some(&n) = cs.get(i + 1) {
+                    raw.push(n);
+                }
+                i += 2;
+            }
+            '`' => break,
+            '$' if cs.get(i + 1) == Some(&'{') => return Err("live ${ substitution in the template literal".into()),
+            c => {
+                raw.push(c);
+                i += 1;
+            }
+        }
+    }
+    let rest: String = cs[i + 1..].iter().collect();
+    if rest.trim() != ";" {
+        return Err(format!("unexpected text after the template literal: {:?}", rest.chars().take(40).collect::<String>()));
+    }
+    Ok(raw)
+}
+
+const SPEC_SCALARS: [&str; 5] = ["Int", "Float", "String", "Boolean", "ID"];
+const SPEC_DIRECTIVES: [&str; 5] = ["skip", "include", "deprecated", "specifiedBy", "oneOf"];
+
+/// expected server schema: reference merge of the concatenated files, nitrogql-only
+/// directive removed; compared per (kind, name)
+pub fn check_server_string(js: &str, concat: &[MTsDef], detail: &serde_json::Value) -> Result<String, Failure> {
+    use crate::props::c11::{ref_merge, Merged};
+    let fail = |sig: &str, msg: String, sdl: &str| Failure::new(sig, msg, json!({"input": detail, "module": js, "sdl": sdl}));
+    let raw = extract_template(js).map_err(|e| fail("server-module-malformed", e, ""))?;
+    let sdl = crate::tsmini::cook_template(&raw).map_err(|e| fail("server-module-malformed", e, ""))?;
+    let got = crate::refparse::parse_ts_doc(&sdl).map_err(|e| fail("server-sdl-unparsable", format!("the evaluated template is not valid SDL: {e:?}"), &sdl))?;
+    let mut expected: Vec<MTsDef> = concat.to_vec();
+    for d in expected.iter_mut() {
+        if let MTsDef::Type(t) | MTsDef::TypeExt(t) = d {
+            t.directives.retain(|d| d.name != "nitrogql_ts_type");
+        }
+    }
+    let reference = ref_merge(&expected);
+    assert!(reference.duplicates.is_empty() && reference.orphans.is_empty(), "harness: generated schema is not mergeable");
+    let user_defines = |n: &str| expected.iter().any(|d| matches!(d, MTsDef::Type(t) if t.name == n));
+    let user_directive = |n: &str| expected.iter().any(|d| matches!(d, MTsDef::Directive(t) if t.name == n));
+    let mut seen = std::collections::BTreeSet::new();
+    let mut got_dirs = vec![];
+    for d in &got {
+        match d {
+            MTsDef::SchemaExt(_) | MTsDef::TypeExt(_) => return Err(fail("server-sdl-has-extension", "an `extend` item survives in the server schema".into(), &sdl)),
+            MTsDef::Directive(dd) => {
+                if dd.name == "nitrogql_ts_type" {
+                    return Err(fail("nitrogql-directive-survives", "directive @nitrogql_ts_type is still defined".into(), &sdl));
+                }
+                if SPEC_DIRECTIVES.contains(&dd.name.as_str()) && !user_directive(&dd.name) {
+                    continue;
+                }
+                got_dirs.push(dd.clone());
+            }
+            MTsDef::Schema(sd) => {
+                if !seen.insert((0u8, String::new())) {
+                    return Err(fail("server-sdl-duplicate", "two schema definitions".into(), &sdl));
+                }
+                match reference.merged.iter().find(|(k, _)| k.0 == 0) {
+                    Some((_, Merged::Schema(e))) if e == sd => {}
+                    Some((_, e)) => return Err(fail("server-sdl-differs:schema", format!("schema definition differs: expected {e:?}, got {sd:?}"), &sdl)),
+                    None => return Err(fail("server-sdl-invented:schema", "schema definition invented".into(), &sdl)),
+                }
+            }
+            MTsDef::Type(t) => {
+                if SPEC_SCALARS.contains(&t.name.as_str()) && !user_defines(&t.name) {
+                    continue;
+                }
+                let key = reference.merged.iter().find(|(k, m)| k.0 != 0 && matches!(m, Merged::Type(e) if e.name == t.name && e.kind == t.kind));
+                match key {
+                    None => return Err(fail("server-sdl-invented", format!("{} {} is not in the checked schema", t.kind.keyword(), t.name), &sdl)),
+                    Some((k, Merged::Type(e))) => {
+                        if !seen.insert(k.clone()) {
+                            return Err(fail("server-sdl-duplicate", format!("{} appears twice", t.name), &sdl));
+                        }
+                        if e.directives.iter().any(|d| d.name == "nitrogql_ts_type") {
+                            unreachable!();
+                        }
+                        if t.directives.iter().any(|d| d.name == "nitrogql_ts_type") {
+                            return Err(fail("nitrogql-directive-survives", format!("@nitrogql_ts_type is still applied to {}", t.name), &sdl));
+                        }
+                        if e != t {
+                            let comp = if e.desc != t.desc {
+                                "description"
+                            } else if e.directives != t.directives {
+                                "directives"
+                            } else if e.implements != t.implements {
+                                "implements"
+                            } else if e.fields != t.fields {
+                                "fields"
+                            } else if e.members != t.members {
+                                "members"
+                            } else if e.values != t.values {
+                                "values"
+                            } else {
+                                "input_fields"
+                            };
+                            return Err(fail(&format!("server-sdl-differs:{comp}"), format!("{} differs in {comp}:\nexpected {e:?}\ngot      {t:?}", t.name), &sdl));
+                        }
+                    }
+                    _ => unreachable!(),
+                }
+            }
+        }
+    }
+    for k in reference.merged.keys() {
+        if !seen.contains(k) {
+            return Err(fail("server-sdl-lost", format!("{k:?} is missing from the server schema"), &sdl));
+        }
+    }
+    if got_dirs != reference.directives {
+        return Err(fail("server-sdl-differs:directive-definitions", format!("directive definitions differ: expected {:?}, got {got_dirs:?}", reference.directives), &sdl));
+    }
+    Ok(sdl)
+}
+
+fn emit_server_module(files: &[(std::path::PathBuf, String)], detail: &serde_json::Value) -> Result<String, Failure> {
+    use crate::pipeline::*;
+    let ss = schema_stage(files, detail)?;
+    if !ss.ok() {
+        return Err(Failure::new("harness:schema-rejected", format!("{:?}", ss.all_diags()), detail.clone()));
+    }
+    let sdoc = ss.doc.as_ref().unwrap();
+    guard(|| {
+        let mut buffer = String::new();
+        buffer.push_str("// generated by nitrogql\n");
+        buffer.push_str("export const schema = ");
+        let mut writer = sourcemap_writer::JsStringWriter::new(&mut buffer);
+        let schema = remove_builtins(sdoc);
+        schema.print_graphql(&mut writer);
+        drop(writer);
+        buffer.push_str(";\n");
+        buffer
+    })
+    .map_err(|p| panic_failure("server schema emission", &p, detail.clone()))
+}
+
+fn server_case(case: &mut Case) -> CaseResult {
+    use crate::gen_schema::*;
+    let mut so = SchemaGenOpts::default();
+    so.descriptions = 2;
+    so.deprecations = true;
+    so.custom_directives = true;
+    so.renamed_roots = case.ch.chance(1, 3);
+    so.defaults = true;
+    so.keyword_names = case.ch.chance(1, 3);
+    let gs = gen_schema(&mut case.ch, &so);
+    let mut doc = gs.doc.clone();
+    // extra hostile strings: deprecation reasons, default strings
+    let mut tame = tame_strings(case);
+    {
+        let ch = &mut case.ch;
+        let mut n = 0;
+        map_ts_strings(&mut doc, &mut |s: &mut String| {
+            n += 1;
+            if ch.chance(1, 4) {
+                *s = g_string(ch);
+            }
+        });
+    }
+    map_ts_strings(&mut doc, &mut tame);
+    // a scalar mapped with the nitrogql-only directive
+    let mut with_nitrogql_directive = false;
+    if case.ch.chance(1, 3) {
+        for d in doc.iter_mut() {
+            if let MTsDef::Type(t) = d {
+                if t.kind == Kind::Scalar {
+                    t.directives.push(MDirective {
+                        name: "nitrogql_ts_type".into(),
+                        args: ["resolverInput", "resolverOutput", "operationInput", "operationOutput"].iter().map(|k| (k.to_string(), MValue::Str("string | `x${1}`".into()))).collect(),
+                    });
+                    with_nitrogql_directive = true;
+                    break;
+                }
+            }
+        }
+    }
+    let files = split_into_extensions(&mut case.ch, &doc);
+    let has_ext = files.iter().flatten().any(|d| matches!(d, MTsDef::TypeExt(_) | MTsDef::SchemaExt(_)));
+    let rendered: Vec<(std::path::PathBuf, String)> = files
+        .iter()
+        .enumerate()
+        .map(|(i, f)| (std::path::PathBuf::from(format!("/p/s{i}.graphqls")), crate::props::c11::render_ts_file(f, RenderOpts::canonical(), None).text))
+        .collect();
+    let detail = json!({"files": rendered.iter().map(|(_, t)| t.clone()).collect::<Vec<_>>()});
+    let js = emit_server_module(&rendered, &detail)?;
+    let concat: Vec<MTsDef> = files.iter().flatten().cloned().collect();
+    let sdl = check_server_string(&js, &concat, &detail)?;
+    case.evals(1);
+    let hostile = js.contains("\\`") || js.contains("\\${") || js.contains("\\\\");
+    if hostile {
+        case.label("template-escapes");
+    }
+    if has_ext {
+        case.label("extensions-merged");
+    }
+    if with_nitrogql_directive {
+        case.label("nitrogql-directive-stripped");
+    }
+    if hostile || with_nitrogql_directive || has_ext {
+        case.nontrivial(&js);
+    }
+    case.sample(|| json!({"module_head": js.chars().take(300).collect::<String>(), "sdl_chars": sdl.chars().count()}));
+    Ok(())
+}
+
+fn server_cli_case(case: &mut Case, base: &std::path::Path) -> CaseResult {
+    use crate::cli::*;
+    use crate::projects::*;
+    let mut po = ProjectOpts::default();
+    po.wild_trivia = false;
+    po.schema.descriptions = 2;
+    let mut gp = gen_project(case, &po);
+    if gp.layout.server_graphql_output.is_none() {
+        gp.layout.server_graphql_output = Some("generated/server-schema.ts".into());
+        gp.config.push_str("      serverGraphqlOutput: \"generated/server-schema.ts\"\n");
+    }
+    // hostile strings subject to the known-finding flags: re-render the schema files
+    let mut tame = tame_strings(case);
+    let mut with_directive = case.ch.chance(1, 2);
+    for (i, f) in gp.schema_file_models.iter_mut().enumerate() {
+        if with_directive {
+            for d in f.iter_mut() {
+                if let MTsDef::Type(t) = d {
+                    if t.kind == Kind::Scalar {
+                        t.directives.push(MDirective {
+                            name: "nitrogql_ts_type".into(),
+                            args: ["resolverInput", "resolverOutput", "operationInput", "operationOutput"].iter().map(|k| (k.to_string(), MValue::Str("string".into()))).collect(),
+                        });
+                        with_directive = false;
+                        case.label("nitrogql-directive-stripped");
+                        break;
+                    }
+                }
+            }
+        }
+        map_ts_strings(f, &mut tame);
+        crate::gen_schema::strip_comment_close(f);
+        gp.schema_files[i].1 = crate::props::c11::render_ts_file(f, RenderOpts::canonical(), None).text;
+    }
+    let proj = write_project(&gp, base);
+    let run = run_cli(&proj.path(&gp.layout.root), &["generate", "--output-format", "json"]);
+    let detail = json!({"config": gp.config, "files": gp.schema_files.iter().map(|(p, t)| json!({"path": p, "text": t})).collect::<Vec<_>>(), "stderr": strip_ansi(&run.stderr), "stdout": run.stdout});
+    let out_rel = norm(&format!("{}/{}", gp.layout.root, gp.layout.server_graphql_output.as_ref().unwrap()));
+    let js = proj.read(&out_rel);
+    proj.remove();
+    if run.crashed() || run.status != Some(0) {
+        return Err(Failure::new("cli-generate-failed", format!("generate exited {:?}", run.status), detail));
+    }
+    let js = js.ok_or_else(|| Failure::new("output-missing", out_rel.clone(), detail.clone()))?;
+    let concat: Vec<MTsDef> = gp.schema_file_models.iter().flatten().cloned().collect();
+    check_server_string(&js, &concat, &detail)?;
+    case.evals(1);
+    if gp.has_extension {
+        case.label("extensions-merged");
+    }
+    case.nontrivial(&js);
+    case.sample(|| json!({"module_head": js.chars().take(200).collect::<String>()}));
+    Ok(())
+}
+
 pub fn run(env: &Env) -> i32 {
     let mut rep = Report::new(
         env,
         "exploration",
-        "part B (round trip): abstract operation / type-system documents from the syntactic generator (every production, hostile strings) rendered canonically, parsed by nitrogql, printed by GraphQLPrinter, re-parsed; oracle: converted models equal. Non-trivial: a string needing escapes (quote, backslash, backtick, ${, newline), a variable default, an #import, a schema extension or an extension with only directives; distinct = text. Part A (server schema string) is added by the schema-level campaign.",
+        "part B (round trip): abstract operation / type-system documents from the syntactic generator (every production, hostile strings) rendered canonically, parsed by nitrogql, printed by GraphQLPrinter, re-parsed; oracle: converted models equal. Non-trivial: a string needing escapes (quote, backslash, backtick, ${, newline), a variable default, an #import, a schema extension or an extension with only directives; distinct = text. Part A (server schema string): valid generated schemas (hostile descriptions, deprecation reasons and default strings, extensions spread over files, custom directives, a scalar carrying @nitrogql_ts_type) are checked, the serverGraphqlOutput module is produced (in-process replica of generate.rs and through the built CLI), its template literal is evaluated with ECMAScript TV rules, parsed with the reference SDL parser and compared per (kind,name) with the reference merge minus the nitrogql-only directive; spec built-in scalars/directives may be listed. Non-trivial there: template escapes, merged extensions or a stripped nitrogql directive.",
     );
     rep.assume("the second parse uses nitrogql's own parser (the statement is about nitrogql's print/parse pair); the first parse is cross-checked against the generated model");
     let probe_op = |text: &'static str| {
@@ -234,6 +511,16 @@ pub fn run(env: &Env) -> i32 {
     rep.probe("C16-print-extend-schema-directives", probe_ts("extend schema @d"));
     rep.probe("C16-print-extend-union-directives", probe_ts("extend union U @d"));
 
+    rep.campaign("server-schema-string", env.cases(6_000, 150_000), (100, 1200), server_case);
+    {
+        let base = work_dir("c16");
+        let b = base.clone();
+        let save = rep.shrink_iters;
+        rep.shrink_iters = Some(200);
+        rep.campaign("server-schema-string-cli", env.cases(300, 5_000), (300, 2000), move |case| server_cli_case(case, &b));
+        rep.shrink_iters = save;
+        let _ = std::fs::remove_dir_all(&base);
+    }
     rep.campaign("roundtrip-op", env.cases(20_000, 400_000), (0, 400), op_case);
     rep.campaign("roundtrip-ts", env.cases(20_000, 400_000), (0, 400), ts_case);
     rep.finish()
